@@ -16,6 +16,7 @@ import (
 	"github.com/ThreeDotsLabs/watermill/pubsub/gochannel"
 
 	"wmverif/sched"
+	"wmverif/scripted"
 	"wmverif/tr"
 )
 
@@ -215,6 +216,7 @@ func c18Body(r *tr.Run, cs c18Case) {
 	if cs.Timeout > 0 {
 		tmo = &cs.Timeout
 	}
+	cmdOf, cmdState := map[*message.Message]*message.Message{}, map[*message.Message]string{}
 	onPub, pubSeen := map[string]func(){}, map[string]bool{}
 	register := func(name string, f func()) {
 		mu.Lock()
@@ -237,7 +239,13 @@ func c18Body(r *tr.Run, cs c18Case) {
 		}
 		for _, m := range msgs {
 			cn := m.Metadata.Get("caller")
-			r.Emit("replypub", "c", cn, "n", atoiSafe(m.Metadata.Get("n")))
+			mu.Lock()
+			cst, known := cmdState[m]
+			mu.Unlock()
+			if !known {
+				cst = "none"
+			}
+			r.Emit("replypub", "c", cn, "n", atoiSafe(m.Metadata.Get("n")), "cmdstate", cst) // the command's settlement when Publish was entered
 			mu.Lock()
 			f := onPub[cn]
 			pubSeen[cn] = true
@@ -249,6 +257,11 @@ func c18Body(r *tr.Run, cs c18Case) {
 	}, fail: func(msgs []*message.Message) bool {
 		mu.Lock()
 		defer mu.Unlock()
+		for _, m := range msgs {
+			if cm := cmdOf[m]; cm != nil {
+				cmdState[m] = scripted.SettleState(cm)
+			}
+		}
 		for _, m := range msgs {
 			if cn := m.Metadata.Get("caller"); pubFail[cn] {
 				pubFail[cn] = false
@@ -273,6 +286,9 @@ func c18Body(r *tr.Run, cs c18Case) {
 			mu.Unlock()
 			msg.Metadata.Set("caller", cn)
 			msg.Metadata.Set("n", fmt.Sprint(n))
+			mu.Lock()
+			cmdOf[msg] = p.CommandMessage // (its settlement is sampled when the reply is handed to the publisher)
+			mu.Unlock()
 			return nil
 		},
 		OnListenForReplyFinished: func(ctx context.Context, p requestreply.PubSubBackendSubscribeParams) {
